@@ -468,7 +468,13 @@ class TDS(BaseRoutine):
             else:
                 logger.debug("Anticipated time step t=%g did not converge", system.dae.t)
 
-                dae.t -= self.h
+                # The first step of a run that initialized itself ends at the starting time: the clock
+                # has not been advanced for it. Rewinding would move the time axis before the starting time
+                # (and below events scheduled at negative times), so retry it with the clock unchanged.
+                at_start = (dae.t == 0) and (dae.kcount == 0)
+
+                if not at_start:
+                    dae.t -= self.h
                 self.calc_h()
 
                 logger.debug("From t=%g, new step size h=%g ", system.dae.t, self.h)
@@ -478,7 +484,8 @@ class TDS(BaseRoutine):
                     self.busted = True
                     break
 
-                dae.t += self.h
+                if not at_start:
+                    dae.t += self.h
 
         if self.busted:
             logger.error(self.err_msg)
